@@ -2,11 +2,11 @@ package main
 
 import (
 	"encoding/json"
-	"regexp"
 	"flag"
 	"fmt"
 	"os"
 	"path/filepath"
+	"regexp"
 	"runtime/debug"
 	"sort"
 	"strings"
